@@ -11,7 +11,7 @@ from .sync_common import entry_point
 from .C03 import root_ptr
 from .C10 import roots_of
 
-UNITS = ["data"]
+UNITS = ["data", "init"]
 
 FRESH = ("_dispatch_data_alloc", "dispatch_data_create", "dispatch_data_create_subrange", "dispatch_data_create_concat", "_dispatch_data_copy_region",
          "dispatch_data_copy_region", "dispatch_data_create_map", "dispatch_data_create_f", "_dispatch_data_subrange_map", "dispatch_data_create_with_transform",
@@ -444,6 +444,136 @@ def rule_BD7(rep, prog):
 NUM_RECORDS_READERS = {"_dispatch_data_leaf": "n == 0 <=> leaf", "_dispatch_data_num_records": "n ?: 1 (a leaf counts as one record)"}
 
 
+def rule_TB11(rep, prog):
+    rid = rep.rule("C13-TB11", "destructor sentinels are exhaustive: every _dispatch_data_destructor_* sentinel block this build defines (their bodies are crash traps) is "
+                   "recognised by _dispatch_data_destroy_buffer before the generic `submit the destructor block` path, or translated away by dispatch_data_create "
+                   "before it is stored; and dispatch_data_create_f passes every sentinel through unwrapped", floor=3)
+    sentinels = sorted({name for m in prog.modules.values() for name, g in m.globals.items()
+                        if name.startswith("_dispatch_data_destructor_") and "init" in g})
+    if len(sentinels) < 3:
+        rep.unknown(rid, "fewer than 3 destructor sentinel definitions found (%s)" % sentinels)
+        return
+    def tested(fn, at, s):
+        """truth of `x == @s` on every path reaching `at` (None if not decided)"""
+        dx = paths.dom_ctx(fn, at)
+        for iid, tv in dx.truth.items():
+            t = fn.insts[iid]
+            if t.op != "icmp" or t.d["pred"] not in ("eq", "ne"):
+                continue
+            for o in t.ops:
+                l = fn.inst(o)
+                if l is not None and l.op == "load" and l.d.get("ptr") and tuple(l.d["ptr"]["base"][:2]) == ("g", s):
+                    return tv == (t.d["pred"] == "eq")
+        return None
+    db = prog.fn("_dispatch_data_destroy_buffer")
+    cr = prog.fn("dispatch_data_create")
+    cf = prog.fn("dispatch_data_create_f")
+    for f in (db, cr, cf):
+        rep.saw(f)
+    subs = calls_named(db, "dispatch_async_f")
+    # the copy whose result is stored as the object's destructor (the empty-buffer path hands its copy straight to _dispatch_data_destroy_buffer: covered by `handled`;
+    # the internal, non-exported INLINE sentinel is never passed with an empty buffer by the library itself)
+    def feeds_destroy(c):
+        vals = {("i", c.id)} | {("i", b.id) for b in cr.all_insts() if b.op == "bitcast" and tuple(b.ops[0][:2]) == ("i", c.id)}
+        return any(tuple(a[:2]) in vals for d in calls_named(cr, "_dispatch_data_destroy_buffer") for a in d.ops)
+    copies = [c for c in calls_named(cr, "_dispatch_Block_copy") if not feeds_destroy(c)]
+    if not subs or not copies:
+        rep.unknown(rid, "generic destructor submission / Block_copy of the client destructor not found")
+        return
+    for s in sentinels:
+        handled = all(tested(db, c, s) is False for c in subs)
+        translated = all(tested(cr, c, s) is False for c in copies)
+        rep.require(rid, handled or translated, subs[0].loc, db.name, "sentinel-not-handled:%s" % s,
+                    "the destructor sentinel %s is neither recognised by _dispatch_data_destroy_buffer nor translated by dispatch_data_create: releasing a data object "
+                    "created with it submits the sentinel block itself, whose body is an internal crash trap, instead of destroying the buffer exactly once" % s,
+                    sample={"sentinel": s, "by": "destroy_buffer" if handled else "create"})
+    # create_f: the function-pointer wrapper is built only for genuine functions
+    wraps = [st for st in cf.all_insts() if st.op == "store" and st.ops[0][0] == "f" and "block_invoke" in str(st.ops[0][1])]
+    if not wraps:
+        rep.unknown(rid, "dispatch_data_create_f: wrapper block construction not found")
+        return
+    for s in sentinels:
+        rep.require(rid, all(tested(cf, w, s) is False for w in wraps), wraps[0].loc, cf.name, "sentinel-wrapped-as-function:%s" % s,
+                    "dispatch_data_create_f wraps the sentinel %s in a block that calls it as a C function: the sentinel is a block object, not code" % s,
+                    sample={"sentinel": s, "by": "create_f"})
+
+
+def _must_write(prog, fn, k, seen=()):
+    """every path from the entry of fn to a return writes through pointer parameter k: directly, or by passing it to a callee that must write it"""
+    if fn.name in seen:
+        return False
+    writes = []
+    for i in fn.all_insts():
+        if i.op == "store" and i.d.get("ptr") and tuple(root_ptr(fn, i.d["ptr"]["base"])[:2]) == ("a", k) and i.d["ptr"].get("off", 0) == 0:
+            writes.append(i)
+    for c in fn.all_insts():
+        if c.op != "call" or not c.callee:
+            continue
+        g = prog.fn(c.callee, required=False)
+        if g is None:
+            continue
+        for j, a in enumerate(c.ops):
+            if tuple(a[:2]) == ("a", k) and j < len(g.params) and _must_write(prog, g, j, seen + (fn.name,)):
+                writes.append(c)
+    first = next(iter(fn.all_insts()))
+    if first in writes:
+        return True
+    rets = [i for i in fn.all_insts() if i.op == "ret"]
+    return not any(fn.inst_reaches(first, r, avoid_insts=writes) for r in rets)
+
+
+def rule_MW12(rep, prog):
+    rid = rep.rule("C13-MW12", "dispatch_data_copy_region always reports an offset: on every path to a return the caller's *offset_ptr is written (by the entry point "
+                   "itself or by a helper that writes it on all of ITS paths) - it never keeps whatever the caller's variable held before", floor=1)
+    fn = prog.fn("dispatch_data_copy_region")
+    rep.saw(fn)
+    k = len(fn.params) - 1
+    rep.require(rid, _must_write(prog, fn, k), next(iter(fn.all_insts())).loc, fn.name, "offset-out-param-not-written",
+                "dispatch_data_copy_region can return a region without having written *offset_ptr: for a leaf (or a subrange of a leaf) the helper returns the object "
+                "without touching the offset, so the caller reads a stale or uninitialised offset for the region", sample={"param": k})
+
+
+def rule_AI13(rep, prog):
+    rid = rep.rule("C13-AI13", "record displacement is applied exactly once in dispatch_data_apply: the pointer handed to the applier is _dispatch_data_map_direct(dd, A) "
+                   "displaced by B with A + B == from (the record's origin inside the leaf) - not 0, not twice", floor=1)
+    fn = prog.fn("_dispatch_data_apply")
+    rep.saw(fn)
+    # which parameter is `from`: the one the recursion fills from records[i].from
+    k = None
+    for c in calls_named(fn, fn.name):
+        for j, a in enumerate(c.ops):
+            l = fn.inst(a)
+            if l is not None and l.op == "load" and "from" in prog.fields(l):
+                k = j
+    outs = calls_named(fn, "_dispatch_data_apply_client_callout")
+    if k is None or not outs:
+        rep.unknown(rid, "_dispatch_data_apply: `from` parameter / applier callout not found")
+        return
+    for c in outs:
+        found = False
+        for a in c.ops:
+            g = fn.inst(a)
+            disp = {}
+            while g is not None and g.op in ("getelementptr", "bitcast"):
+                if g.op == "getelementptr":
+                    for o in g.ops[1:]:
+                        for k_, v in linform(fn, o).items():
+                            disp[k_] = disp.get(k_, 0) + v
+                g = fn.inst(g.ops[0])
+            if g is not None and g.op == "call" and g.callee == "_dispatch_data_map_direct":
+                found = True
+                tot = dict(disp)
+                for k_, v in linform(fn, g.ops[1]).items():
+                    tot[k_] = tot.get(k_, 0) + v
+                tot = {k_: v for k_, v in tot.items() if v}
+                rep.require(rid, tot == {("a", k): 1}, c.loc, fn.name, "record-origin-not-applied-once",
+                            "_dispatch_data_apply hands the applier a pointer displaced by %s from the start of the leaf buffer instead of exactly `from`: a fragment whose "
+                            "record starts inside its leaf is read at the wrong place (and past the end of the buffer when twice `from` plus the length exceeds it)"
+                            % {str(k_): v for k_, v in tot.items()}, sample={"callout": c.loc})
+        if not found:
+            rep.unknown(rid, "_dispatch_data_apply: the applier's buffer is not derived from _dispatch_data_map_direct at %s" % c.loc)
+
+
 def rule_SB8(rep, prog):
     rid = rep.rule("C13-SB8", "record counting goes through the two helpers: the raw num_records field (0 for a leaf) is read only by _dispatch_data_leaf / "
                    "_dispatch_data_num_records; the public apply entry points both return early for an empty object; a one-record object's record length equals "
@@ -658,10 +788,16 @@ def run(rep, tier="quick", srcdir=None, only=None):
         rule_AI10(rep, prog)
     if want("C13-SB8"):
         rule_SB8(rep, prog)
+    if want("C13-TB11"):
+        rule_TB11(rep, prog)
+    if want("C13-MW12"):
+        rule_MW12(rep, prog)
+    if want("C13-AI13"):
+        rule_AI13(rep, prog)
 
 
 MANIFEST = {
-    "technique": "dominance / value-identity ownership rules, who-may-write census and overflow-guard rules over the LLVM IR of data.c + concrete evaluation of the entry-point case splits (subrange offset/length grid) and path rules on destructor / returned-object obligations",
+    "technique": "dominance / value-identity ownership rules, who-may-write census and overflow-guard rules over the LLVM IR of data.c + concrete evaluation of the entry-point case splits (subrange offset/length grid) and path rules on destructor / returned-object obligations + exhaustiveness of the destructor-sentinel set against the build's own definitions, interprocedural must-write of the offset out-parameter, linear-form identity of the record displacement",
     "level": "memory-safety and ownership skeleton only: clamp form and domination, returned-object retention (same object), record-origin translation on "
              "every descent, closed writer set of the record table and closed caller set of the buffer destructor, checked allocation sizes. The byte-string "
              "algebra (which bytes each operation denotes for every tree) is a functional-correctness statement over recursive data and is NOT decided",
